@@ -114,7 +114,7 @@ func ewValues(c *core.Ctx, t reflect.Type, n int, class string, which int) []int
 		}
 		return gen.FromPool(pool, n, c.Rng)
 	case "neg": // negatives, zero and positives
-		out := gen.SmallInts(t, n, c.Rng, -6, 6)
+		out := gen.SmallGauss(t, n, c.Rng, -6, 6)
 		if n > 0 {
 			out[c.Rng.Intn(n)] = model.Zero(t)
 		}
@@ -143,7 +143,7 @@ func ewValues(c *core.Ctx, t reflect.Type, n int, class string, which int) []int
 	if which == 0 {
 		return gen.Distinct(t, n, c.Rng, 5, 7)
 	}
-	out := gen.SmallInts(t, n, c.Rng, 1, 5)
+	out := gen.SmallGauss(t, n, c.Rng, 1, 5)
 	return out
 }
 
